@@ -731,6 +731,7 @@ func first(a, _ []byte) []byte { return a }
 //@   opt leaf alphaLeafNode
 //@   requires WF1in_alpha(t) && sizeSane(t)
 //@   assume_at_call minimum : HeapOKN() && LinkedLive()
+//@   pathkey calls("Insert$1")
 //@   ensures[size_accounting] t.size == old(t.size) + calls("Insert$1")
 //@   ensures[overwrite_only_value] implies(calls("Insert$1") == 0, frameExcept("alphaLeafNode.value"))
 //@   ensures[arg_bytes_unchanged] sameBytes(key, 0, blen(key.obj))
@@ -749,6 +750,7 @@ func first(a, _ []byte) []byte { return a }
 //@   opt leaf $KINDLeafNode
 //@   requires WF1in_$KIND(t) && sizeSane(t)
 //@   assume_at_call minimum : HeapOKN() && LinkedLive()
+//@   pathkey calls("Insert$1")
 //@   ensures[size_accounting] t.size == old(t.size) + calls("Insert$1")
 //@   ensures[overwrite_only_value] implies(calls("Insert$1") == 0, frameExcept("$KINDLeafNode.value"))
 //@   ensures[wf] WF1_$KIND(t)
